@@ -182,7 +182,7 @@ class PythonStringConcatAnalyzer:
 
     def _get_loop_type(self, node: ast.AST) -> str | None:
         """Get the loop type if node is a loop, else None."""
-        if isinstance(node, ast.For):
+        if isinstance(node, (ast.For, ast.AsyncFor)):
             return "for"
         if isinstance(node, ast.While):
             return "while"
@@ -203,7 +203,7 @@ class PythonStringConcatAnalyzer:
         reset_vars: set[str] = set()
 
         # Get the loop body
-        if isinstance(loop_node, (ast.For, ast.While)):
+        if isinstance(loop_node, (ast.For, ast.AsyncFor, ast.While)):
             body = loop_node.body
         else:
             return reset_vars
